@@ -29,6 +29,10 @@ func (env *Env) with(st *State) *Env {
 var untypedInt = types.Typ[types.UntypedInt]
 var untypedBool = types.Typ[types.UntypedBool]
 
+// mathRealT marks specification values of SMT sort Real (go/types has no such type; the unused
+// untyped complex kind stands in for it)
+var mathRealT = types.Typ[types.UntypedComplex]
+
 func boolVal(t string) Val { return Val{T: t, Typ: types.Typ[types.Bool]} }
 func mathInt(t string) Val { return Val{T: t, Typ: untypedInt} }
 
@@ -489,6 +493,42 @@ func (c *FnCtx) binop(env *Env, op token.Token, l, r Val, n ast.Node) Val {
 	if b, ok := lt.(*types.Basic); ok && b.Info()&types.IsUntyped != 0 {
 		resT = rt
 	}
+	if lt == mathRealT || rt == mathRealT {
+		// mathematical reals (specifications only): integers are embedded, floats must be
+		// converted explicitly with real()
+		toReal := func(v Val, t types.Type) string {
+			if t == mathRealT {
+				return v.T
+			}
+			if _, _, isI := intInfo(t); isI || t == untypedInt {
+				return app("to_real", v.T)
+			}
+			c.unsup(n, "mixing a real with %s (use real())", t)
+			return ""
+		}
+		a, b := toReal(l, lt), toReal(r, rt)
+		switch op {
+		case token.ADD:
+			return Val{T: app("+", a, b), Typ: mathRealT}
+		case token.SUB:
+			return Val{T: app("-", a, b), Typ: mathRealT}
+		case token.MUL:
+			return Val{T: app("*", a, b), Typ: mathRealT}
+		case token.EQL:
+			return boolVal(eq(a, b))
+		case token.NEQ:
+			return boolVal(not(eq(a, b)))
+		case token.LSS:
+			return boolVal(app("<", a, b))
+		case token.LEQ:
+			return boolVal(app("<=", a, b))
+		case token.GTR:
+			return boolVal(app(">", a, b))
+		case token.GEQ:
+			return boolVal(app(">=", a, b))
+		}
+		c.unsup(n, "operator %s on reals", op)
+	}
 	_, lf := isFloat(lt)
 	_, rf := isFloat(rt)
 	if lt == untypedInt && rf {
@@ -615,6 +655,15 @@ func (c *FnCtx) strConcat(env *Env, l, r Val) Val {
 func (c *FnCtx) floatBinop(op token.Token, l, r Val, resT types.Type, n ast.Node) Val {
 	if _, ok := isFloat(resT); !ok {
 		resT = r.Typ
+	}
+	switch op {
+	case token.EQL, token.NEQ, token.LSS, token.LEQ, token.GTR, token.GEQ:
+		if bits, ok := isFloat(c.subst(l.Typ)); ok {
+			if rb, ok2 := isFloat(c.subst(r.Typ)); ok2 && rb == bits {
+				c.fpOrderFacts(l.T, r.T, bits)
+				c.fpOrderFacts(r.T, l.T, bits)
+			}
+		}
 	}
 	switch op {
 	case token.ADD:
@@ -836,6 +885,9 @@ func (c *FnCtx) convert(env *Env, v Val, target types.Type, n ast.Node) Val {
 		sa := "11 53"
 		if tfBits == 32 {
 			sa = "8 24"
+		}
+		if _, lit := parseIntLit(v.T); !lit {
+			return c.intToFloat(v, target, tfBits)
 		}
 		return Val{T: fmt.Sprintf("((_ to_fp %s) RNE (to_real %s))", sa, v.T), Typ: target}
 	case tIsF && sIsF:
